@@ -2,7 +2,7 @@
    carries its source's latest report -- the flat run has that invariant (Proofs/LatestP.v) and the
    nested run is in lockstep with it (Proofs/InlineLoopP.v). *)
 From TV Require Import Base Model.Wiring Model.Ticker Model.Component Model.Sim Model.SimTime Model.Inline
-  Proofs.WiringP Proofs.SimP Proofs.NonInterfP Proofs.LatestP Proofs.EqvP Proofs.WakeWfP Proofs.InlineP Proofs.InlineLoopP
+  Proofs.WiringP Proofs.SimP Proofs.NonInterfP Proofs.LatestP Proofs.EqvP Proofs.WakeWfP Proofs.ParDevP Proofs.InlineP Proofs.InlineLoopP
   Oracle.SimCheck Proofs.InlineScopeP.
 Open Scope Z_scope.
 
@@ -58,7 +58,12 @@ Theorem nested_latest cfg c lvc pre inn post devf f n initial horizon :
   LATEST (Cf cfg c lvc) (fst (fst (sim_run cfg devf n (S f) initial horizon))).
 Proof.
   intros Hsh Hwf Hnd Hext.
-  pose proof (run_inline cfg c lvc pre inn post Hsh devf Hnd Hext f n initial horizon) as HB.
+  assert (Hsib : sib_ok cfg (S f) c lvc pre inn post).
+  { apply sib_ok_devices. intros y Hy. destruct Hwf as [Hk _]. rewrite (inline_top_order _ _ _ _ _ _ Hsh) in Hk.
+    assert (Hi : In (dk cfg y) (map (dk cfg) pre ++ map dv inn ++ map (dk cfg) post)).
+    { apply in_app_iff in Hy. apply in_app_iff. destruct Hy as [Hy|Hy]; [left | right; apply in_app_iff; right]; apply in_map; exact Hy. }
+    exact (Hk _ Hi). }
+  pose proof (run_inline cfg c lvc pre inn post Hsh devf Hnd Hext f Hsib n initial horizon) as HB.
   pose proof (sim_run_latest (inline cfg c lvc) devf (S f) Hwf Hnd n initial horizon) as HL.
   rewrite (inline_top_conns cfg c lvc) in HL.
   destruct (sim_run cfg devf n (S f) initial horizon) as [[sN obN] dN].
@@ -66,8 +71,8 @@ Proof.
   destruct HB as [HB _].
   intros u p d q Hk v Hv.
   destruct (Cf_ends cfg c lvc pre inn post Hsh u p d q Hk) as [Hu Hd].
-  destruct (b_dev _ _ _ _ _ _ _ _ HB u Hu) as [Elast _].
-  destruct (b_dev _ _ _ _ _ _ _ _ HB d Hd) as [_ [Einp _]].
+  destruct (b_dev _ _ _ _ _ _ _ _ _ HB u Hu) as [Elast _].
+  destruct (b_dev _ _ _ _ _ _ _ _ _ HB d Hd) as [_ [Einp _]].
   rewrite Einp. apply (HL u p d q Hk). rewrite <- Elast. exact Hv.
 Qed.
 
